@@ -23,7 +23,7 @@ T == Traces[tr]
 
 Init == tr \in 1..Len(Traces) /\ i = 1 /\ fed = <<>> /\ p = 0 /\ lastEnd = 0 /\ out = "run"
 
-Exp == SelectSeq(T.sent, LAMBDA f : f.exp = 1)
+Exp == T.expframes      \* = SelectSeq(T.sent, exp = 1), precomputed by the harness (TLC re-evaluates operators on every use)
 Same(kind, d, e) == /\ d.pdu = e.pdu
                     /\ (HasUid(kind) => d.uid = e.uid)
                     /\ (HasTid(kind) => d.tid = e.tid /\ d.pid = e.pid)
